@@ -1,4 +1,5 @@
 import FFVerif.Props.C17
+import FFVerif.Props.C17Bridge
 import FFVerif.Pins.pinJoinEqualSegments
 import FFVerif.Pins.pinHashArray
 import FFVerif.Pins.pinConcatenateHamiltonian
@@ -31,6 +32,17 @@ import FFVerif.Pins.pinConcatenateHamiltonian
 #print axioms FFVerif.C17.slice_full
 #print axioms FFVerif.C17.index_spec
 #print axioms FFVerif.C17.slice_concat_roundtrip
+#print axioms FFVerif.C17.eq_model_same_function
+#print axioms FFVerif.C17.eq_model_same_hamiltonian_function
+#print axioms FFVerif.C17.same_function_same_propagators
+#print axioms FFVerif.C17.eq_model_same_propagators
+#print axioms FFVerif.C17.same_function_same_control_matrix
+#print axioms FFVerif.C17.eq_model_same_control_matrix
+#print axioms FFVerif.C17.cm_error_sem
+#print axioms FFVerif.C17.same_function_same_control_matrix_error
+#print axioms FFVerif.C17.eq_model_same_filter_function
+#print axioms FFVerif.C17.hamiltonian_function_is_model_array
+#print axioms FFVerif.C17BridgeAux.eigh_data_exists
 #print axioms FFVerif.Pins.pinJoinEqualSegments
 #print axioms FFVerif.Pins.pinHashArray
 #print axioms FFVerif.Pins.pinConcatenateHamiltonian
